@@ -78,13 +78,20 @@ theorem mapRes_decode_of_encode (c : Codec α) (good : α → Prop) (hc : c.Loss
     | err e => simp [hr] at h
     | panic s => simp [hr] at h
 
-/-- framing the current batch keeps the accounting (the members come out of the subscriber oldest first) -/
-theorem sendBatch_inv (c : Codec α) (good : α → Prop) (hc : c.Lossless good) (z : Compressor) (hz : z.Lossless)
+/-- framing the current batch keeps the accounting (the members come out of the subscriber oldest first) — whenever the
+    framed writer accepts the frame -/
+theorem sendBatch_inv (c : Codec α) (good : α → Prop) (hc : c.Lossless good) (z : Compressor) (hz : z.Lossless) (lim : Nat)
     (p : Pub) (sent : List α) (ms : List Bytes) (hb : p.batch = some ms) (h : PubInv c z p sent)
-    (hgood : ∀ a ∈ sent, good a) (hfit : ∀ pend : List α, mapRes c.encode pend = .ok ms → Fits ms) :
-    ∃ p', p.sendBatch z ms = .ok p' ∧ PubInv c z p' sent ∧ p'.batch = some [] ∧ p'.size = p.size := by
+    (hgood : ∀ a ∈ sent, good a) (hfit : ∀ pend : List α, mapRes c.encode pend = .ok ms → Fits ms)
+    (p' : Pub) (hok : p.sendBatch z lim ms = .ok p') :
+    PubInv c z p' sent ∧ p'.batch = some [] ∧ p'.size = p.size := by
   obtain ⟨w, hcz, hdz⟩ := hz (encodeBatch ms)
-  refine ⟨{ p with batch := some [], framed := p.framed ++ [.batch w] }, by simp [Pub.sendBatch, hcz], ?_, rfl, rfl⟩
+  simp only [Pub.sendBatch, hcz] at hok
+  split at hok
+  case isFalse => simp at hok
+  simp only [Res.ok.injEq] at hok
+  subst hok
+  refine ⟨?_, rfl, rfl⟩
   obtain ⟨pend, hp, hacc⟩ := h.acc
   simp only [hb] at hp
   have hfits := hfit pend hp
@@ -116,92 +123,117 @@ theorem flush_inv (c : Codec α) (z : Compressor) (p : Pub) (sent : List α) (h 
   · simpa [Pub.flush] using h.noOther
   · simpa [Pub.flush] using h.acc
 
-/-- one `send(item)` keeps the accounting, whatever the clock says -/
-theorem send_inv (c : Codec α) (good : α → Prop) (hc : c.Lossless good) (z : Compressor) (hz : z.Lossless)
+/-- one `send(item)` that returns `Ok` keeps the accounting, whatever the clock says -/
+theorem send_inv (c : Codec α) (good : α → Prop) (hc : c.Lossless good) (z : Compressor) (hz : z.Lossless) (lim : Nat)
     (p : Pub) (sent : List α) (elapsed : Bool) (a : α) (ha : good a) (h : PubInv c z p sent)
-    (hgood : ∀ x ∈ sent, good x) (hfit : ∀ (pend : List α) ms, mapRes c.encode pend = .ok ms → Fits ms) :
-    ∃ p', p.send c z elapsed a = .ok p' ∧ PubInv c z p' (sent ++ [a]) ∧ p'.size = p.size ∧
-      (p'.batch.isSome = p.batch.isSome) := by
+    (hgood : ∀ x ∈ sent, good x) (hfit : ∀ (pend : List α) ms, mapRes c.encode pend = .ok ms → Fits ms)
+    (p' : Pub) (hok : p.send c z lim elapsed a = .ok p') :
+    PubInv c z p' (sent ++ [a]) ∧ p'.size = p.size ∧ (p'.batch.isSome = p.batch.isSome) := by
   obtain ⟨b, he, hd⟩ := hc a ha
+  unfold Pub.send at hok
   -- poll_ready
-  have hready : ∃ p1, p.pollReady z elapsed = .ok p1 ∧ PubInv c z p1 sent ∧ p1.size = p.size ∧ p1.batch.isSome = p.batch.isSome := by
-    unfold Pub.pollReady
-    cases hb : p.batch with
-    | none => exact ⟨p, rfl, h, rfl, by simp [hb]⟩
-    | some ms =>
-      simp only
-      split
-      · obtain ⟨p', h1, h2, h3, h4⟩ := sendBatch_inv c good hc z hz p sent ms hb h hgood (fun pend hp => hfit pend ms hp)
-        exact ⟨p', h1, h2, h4, by simp [h3]⟩
-      · exact ⟨p, rfl, h, rfl, by simp [hb]⟩
-  obtain ⟨p1, hr1, hi1, hs1, hb1⟩ := hready
-  -- start_send
-  have hsend : ∃ p2, p1.startSend c z a = .ok p2 ∧ PubInv c z p2 (sent ++ [a]) ∧ p2.size = p1.size ∧ p2.batch.isSome = p1.batch.isSome := by
-    unfold Pub.startSend
-    rw [he]
-    obtain ⟨pend, hp, hacc⟩ := hi1.acc
-    cases hb : p1.batch with
-    | some ms =>
-      simp only [hb] at hp
-      refine ⟨{ p1 with batch := some (ms ++ [b]) }, rfl, ⟨hi1.noOther, pend ++ [a], ?_, ?_⟩, rfl, by simp⟩
-      · exact mapRes_append_ok c.encode pend a ms b hp he
-      · simp only [List.map_append, List.map_cons, List.map_nil, ← List.append_assoc, hacc]
-    | none =>
-      simp only [hb] at hp
-      subst hp
-      obtain ⟨w, hcz, hdz⟩ := hz b
-      simp only [hcz]
-      refine ⟨_, rfl, ⟨?_, [], by simp, ?_⟩, rfl, by simp [hb]⟩
-      · intro f hf
-        simp only [List.mem_append, List.mem_singleton] at hf
-        rcases hf with hf | hf | hf
-        · exact hi1.noOther f (by simp [hf])
-        · exact hi1.noOther f (by simp [hf])
-        · rw [hf]; simp
-      · simp only [List.map_nil, List.append_nil] at hacc ⊢
-        rw [← List.append_assoc, subscriberOutputs_append c z _ _ hi1.noOther]
-        simp [subscriberOutputs, hdz, hd, hacc]
-  obtain ⟨p2, hr2, hi2, hs2, hb2⟩ := hsend
-  refine ⟨p2.flush, by simp [Pub.send, hr1, hr2], flush_inv c z p2 _ hi2, by simp [Pub.flush, hs2, hs1], by simp [Pub.flush, hb2, hb1]⟩
+  cases hr1 : p.pollReady z lim elapsed with
+  | err e => simp [hr1] at hok
+  | panic e => simp [hr1] at hok
+  | ok p1 =>
+    simp only [hr1] at hok
+    have hready : PubInv c z p1 sent ∧ p1.size = p.size ∧ p1.batch.isSome = p.batch.isSome := by
+      unfold Pub.pollReady at hr1
+      cases hb : p.batch with
+      | none => simp only [hb, Res.ok.injEq] at hr1; subst hr1; exact ⟨h, rfl, by simp [hb]⟩
+      | some ms =>
+        simp only [hb] at hr1
+        split at hr1
+        · obtain ⟨h2, h3, h4⟩ := sendBatch_inv c good hc z hz lim p sent ms hb h hgood (fun pend hp => hfit pend ms hp) p1 hr1
+          exact ⟨h2, h4, by simp [h3]⟩
+        · simp only [Res.ok.injEq] at hr1; subst hr1; exact ⟨h, rfl, by simp [hb]⟩
+    obtain ⟨hi1, hs1, hb1⟩ := hready
+    -- start_send
+    cases hr2 : p1.startSend c z lim a with
+    | err e => simp [hr2] at hok
+    | panic e => simp [hr2] at hok
+    | ok p2 =>
+      simp only [hr2, Res.ok.injEq] at hok
+      subst hok
+      have hsend : PubInv c z p2 (sent ++ [a]) ∧ p2.size = p1.size ∧ p2.batch.isSome = p1.batch.isSome := by
+        unfold Pub.startSend at hr2
+        rw [he] at hr2
+        obtain ⟨pend, hp, hacc⟩ := hi1.acc
+        cases hb : p1.batch with
+        | some ms =>
+          simp only [hb, Res.ok.injEq] at hr2 hp
+          subst hr2
+          refine ⟨⟨hi1.noOther, pend ++ [a], ?_, ?_⟩, rfl, by simp [hb]⟩
+          · exact mapRes_append_ok c.encode pend a ms b hp he
+          · simp only [List.map_append, List.map_cons, List.map_nil, ← List.append_assoc, hacc]
+        | none =>
+          simp only [hb] at hr2 hp
+          subst hp
+          obtain ⟨w, hcz, hdz⟩ := hz b
+          simp only [hcz] at hr2
+          split at hr2
+          case isFalse => simp at hr2
+          simp only [Res.ok.injEq] at hr2
+          subst hr2
+          refine ⟨⟨?_, [], by simp [hb], ?_⟩, rfl, by simp [hb]⟩
+          · intro f hf
+            simp only [List.mem_append, List.mem_singleton] at hf
+            rcases hf with hf | hf | hf
+            · exact hi1.noOther f (by simp [hf])
+            · exact hi1.noOther f (by simp [hf])
+            · rw [hf]; simp
+          · simp only [List.map_nil, List.append_nil] at hacc ⊢
+            rw [← List.append_assoc, subscriberOutputs_append c z _ _ hi1.noOther]
+            simp [subscriberOutputs, hdz, hd, hacc]
+      obtain ⟨hi2, hs2, hb2⟩ := hsend
+      exact ⟨flush_inv c z p2 _ hi2, by simp [Pub.flush, hs2, hs1], by simp [Pub.flush, hb2, hb1]⟩
 
 /-- For every configuration — lossless codec, self-inverting compressor (or none), batching off or on with
-    any size and any clock — after sending any items and calling `finish()`, the subscriber yields exactly the
-    items accepted, in the order sent, each once, with equal values; and `finish()` has handed everything,
-    including a partially filled batch, to the transport (nothing is left in the batch or the framed writer). -/
+    any size and any clock, any frame limit — whenever every `send` and `finish()` returned `Ok`, the subscriber
+    yields exactly the items accepted, in the order sent, each once, with equal values; and `finish()` has handed
+    everything, including a partially filled batch, to the transport (nothing is left in the batch or the framed
+    writer). "Partial": the compressor's round trip is a hypothesis. -/
 theorem c03_fidelity_partial (c : Codec α) (good : α → Prop) (hc : c.Lossless good) (z : Compressor) (hz : z.Lossless)
-    (batchSize : Option Nat) (items : List (Bool × α)) (hgood : ∀ x ∈ items, good x.2)
-    (hfit : ∀ (pend : List α) ms, mapRes c.encode pend = .ok ms → Fits ms) :
-    ∃ p pf, ({ batch := batchSize.map (fun _ => []), size := batchSize.getD 0 } : Pub).sendAll c z items = .ok p ∧
-      p.finish z = .ok pf ∧
-      subscriberOutputs c z pf.wire = (items.map (·.2)).map Res.ok ∧
+    (lim : Nat) (batchSize : Option Nat) (items : List (Bool × α)) (hgood : ∀ x ∈ items, good x.2)
+    (hfit : ∀ (pend : List α) ms, mapRes c.encode pend = .ok ms → Fits ms)
+    (p pf : Pub)
+    (hsend : ({ batch := batchSize.map (fun _ => []), size := batchSize.getD 0 } : Pub).sendAll c z lim items = .ok p)
+    (hfinish : p.finish z lim = .ok pf) :
+    subscriberOutputs c z pf.wire = (items.map (·.2)).map Res.ok ∧
       pf.framed = [] ∧ (pf.batch = none ∨ pf.batch = some []) := by
   -- generalise over the starting state
-  have hall : ∀ (its : List (Bool × α)) (p : Pub) (sent : List α), PubInv c z p sent → (∀ x ∈ sent, good x) →
-      (∀ x ∈ its, good x.2) →
-      ∃ p', p.sendAll c z its = .ok p' ∧ PubInv c z p' (sent ++ its.map (·.2)) ∧ (p'.batch.isSome = p.batch.isSome) := by
+  have hall : ∀ (its : List (Bool × α)) (p0 : Pub) (sent : List α), PubInv c z p0 sent → (∀ x ∈ sent, good x) →
+      (∀ x ∈ its, good x.2) → ∀ p', p0.sendAll c z lim its = .ok p' →
+      PubInv c z p' (sent ++ its.map (·.2)) ∧ (p'.batch.isSome = p0.batch.isSome) := by
     intro its
     induction its with
-    | nil => intro p sent h _ _; exact ⟨p, rfl, by simpa using h, rfl⟩
+    | nil => intro p0 sent h _ _ p' hp'; simp only [Pub.sendAll, Res.ok.injEq] at hp'; subst hp'; exact ⟨by simpa using h, rfl⟩
     | cons x xs ih =>
-      intro p sent h hs hx
-      obtain ⟨p1, h1, hi1, _, hb1⟩ := send_inv c good hc z hz p sent x.1 x.2 (hx x (by simp)) h hs hfit
-      have hs' : ∀ y ∈ sent ++ [x.2], good y := by
-        intro y hy
-        simp only [List.mem_append, List.mem_singleton] at hy
-        rcases hy with hy | rfl
-        · exact hs y hy
-        · exact hx x (by simp)
-      obtain ⟨p2, h2, hi2, hb2⟩ := ih p1 (sent ++ [x.2]) hi1 hs' (fun y hy => hx y (by simp [hy]))
-      refine ⟨p2, ?_, by simpa [List.append_assoc] using hi2, by rw [hb2, hb1]⟩
+      intro p0 sent h hs hx p' hp'
       cases x with
-      | mk e a => simp only [Pub.sendAll, h1]; exact h2
+      | mk e a =>
+        simp only [Pub.sendAll] at hp'
+        cases h1 : p0.send c z lim e a with
+        | err er => simp [h1] at hp'
+        | panic er => simp [h1] at hp'
+        | ok p1 =>
+          simp only [h1] at hp'
+          obtain ⟨hi1, _, hb1⟩ := send_inv c good hc z hz lim p0 sent e a (hx (e, a) (by simp)) h hs hfit p1 h1
+          have hs' : ∀ y ∈ sent ++ [a], good y := by
+            intro y hy
+            simp only [List.mem_append, List.mem_singleton] at hy
+            rcases hy with hy | rfl
+            · exact hs y hy
+            · exact hx (e, y) (by simp)
+          obtain ⟨hi2, hb2⟩ := ih p1 (sent ++ [a]) hi1 hs' (fun y hy => hx y (by simp [hy])) p' hp'
+          exact ⟨by simpa [List.append_assoc] using hi2, by rw [hb2, hb1]⟩
   have h0 : PubInv c z ({ batch := batchSize.map (fun _ => []), size := batchSize.getD 0 } : Pub) [] := by
     constructor
     · intro f hf; simp at hf
     · cases batchSize with
       | none => exact ⟨[], rfl, rfl⟩
       | some n => exact ⟨[], rfl, rfl⟩
-  obtain ⟨p, hp, hinv, _⟩ := hall items _ [] h0 (by intro x hx; simp at hx) hgood
+  obtain ⟨hinv, _⟩ := hall items _ [] h0 (by intro x hx; simp at hx) hgood p hsend
   simp only [List.nil_append] at hinv
   have hsentgood : ∀ x ∈ items.map (·.2), good x := by
     intro x hx
@@ -209,19 +241,25 @@ theorem c03_fidelity_partial (c : Codec α) (good : α → Prop) (hc : c.Lossles
     obtain ⟨y, hy, rfl⟩ := hx
     exact hgood y hy
   -- finish
-  have hfin : ∃ pf, p.finish z = .ok pf ∧ PubInv c z pf (items.map (·.2)) ∧ pf.framed = [] ∧ (pf.batch = none ∨ pf.batch = some []) := by
-    unfold Pub.finish
+  have hfin : PubInv c z pf (items.map (·.2)) ∧ pf.framed = [] ∧ (pf.batch = none ∨ pf.batch = some []) := by
+    unfold Pub.finish at hfinish
     cases hb : p.batch with
-    | none => exact ⟨p.flush, rfl, flush_inv c z p _ hinv, rfl, Or.inl (by simp [Pub.flush, hb])⟩
+    | none => simp only [hb, Res.ok.injEq] at hfinish; subst hfinish; exact ⟨flush_inv c z p _ hinv, rfl, Or.inl (by simp [Pub.flush, hb])⟩
     | some ms =>
       cases ms with
-      | nil => exact ⟨p.flush, rfl, flush_inv c z p _ hinv, rfl, Or.inr (by simp [Pub.flush, hb])⟩
+      | nil => simp only [hb, Res.ok.injEq] at hfinish; subst hfinish; exact ⟨flush_inv c z p _ hinv, rfl, Or.inr (by simp [Pub.flush, hb])⟩
       | cons m ms =>
-        obtain ⟨p', h1, h2, h3, _⟩ := sendBatch_inv c good hc z hz p _ (m :: ms) hb hinv hsentgood (fun pend hp => hfit pend _ hp)
-        simp only [h1]
-        exact ⟨p'.flush, rfl, flush_inv c z p' _ h2, rfl, Or.inr (by simp [Pub.flush, h3])⟩
-  obtain ⟨pf, hf1, hf2, hf3, hf4⟩ := hfin
-  refine ⟨p, pf, hp, hf1, ?_, hf3, hf4⟩
+        simp only [hb] at hfinish
+        cases h1 : p.sendBatch z lim (m :: ms) with
+        | err er => simp [h1] at hfinish
+        | panic er => simp [h1] at hfinish
+        | ok p' =>
+          simp only [h1, Res.ok.injEq] at hfinish
+          subst hfinish
+          obtain ⟨h2, h3, _⟩ := sendBatch_inv c good hc z hz lim p _ (m :: ms) hb hinv hsentgood (fun pend hp => hfit pend _ hp) p' h1
+          exact ⟨flush_inv c z p' _ h2, rfl, Or.inr (by simp [Pub.flush, h3])⟩
+  obtain ⟨hf2, hf3, hf4⟩ := hfin
+  refine ⟨?_, hf3, hf4⟩
   obtain ⟨pend, hpe, hacc⟩ := hf2.acc
   have hpend : pend = [] := by
     rcases hf4 with h | h
@@ -240,13 +278,26 @@ theorem c03_fidelity_partial (c : Codec α) (good : α → Prop) (hc : c.Lossles
   rw [hpend, hf3] at hacc
   simpa using hacc
 
+/-- A known finding, stated on the model (`known_findings.json`, C03-oversize-batch): when a batch outgrows the
+    frame limit, `send_batch` has already drained it when the framed writer refuses the frame — the `send` that
+    triggered the framing fails, and the members of the batch, whose `send`s had all returned `Ok`, are gone.
+    Witness: frame limit 40, batch size 3, four 10-byte items, then `finish()`: all of the first three were
+    accepted, the fourth `send` fails, and the subscriber is sent nothing at all. -/
+theorem c03_refused_batch_loses_accepted_members :
+    let items : List (Bool × Bytes) := (List.range 4).map fun i => (false, List.replicate 10 (UInt8.ofNat (65 + i)))
+    let r := ({ batch := some [], size := 3 } : Pub).sendEach bytesCodec noCompression 40 items
+    r.2 = [true, true, true, false] ∧
+    (match r.1.finish noCompression 40 with
+     | .ok pf => subscriberOutputs bytesCodec noCompression pf.wire
+     | _ => [.err "finish"]) = [] := by decide +kernel
+
 /-! Non-vacuity: batch size 3, seven strings, no compression — the case that used to come out as
     m2,m1,m0,m5,m4,m3 with m6 lost. -/
 def exItems : List (Bool × Bytes) := (List.range 7).map fun i => (false, [UInt8.ofNat (65 + i)])
 
 example :
-    (match ({ batch := some [], size := 3 } : Pub).sendAll stringCodec noCompression exItems with
-     | .ok p => match p.finish noCompression with
+    (match ({ batch := some [], size := 3 } : Pub).sendAll stringCodec noCompression 1048576 exItems with
+     | .ok p => match p.finish noCompression 1048576 with
        | .ok pf => (subscriberOutputs stringCodec noCompression pf.wire).map (fun r => match r with | .ok b => b | _ => [])
        | _ => []
      | _ => []) = [[65], [66], [67], [68], [69], [70], [71]] := by decide +kernel
@@ -260,3 +311,4 @@ end Selium.Client
 #print axioms Selium.Client.flush_inv
 #print axioms Selium.Client.send_inv
 #print axioms Selium.Client.c03_fidelity_partial
+#print axioms Selium.Client.c03_refused_batch_loses_accepted_members
